@@ -227,6 +227,9 @@ def plan(path: str, rnd: random.Random, q: bool) -> list:
                 tasks[-1] = tasks[-1][:4] + ([zid, "", pool[idx] if 0 <= idx < len(pool) else zid],) + tasks[-1][5:]
     structured = tasks[n_plain:]
     del tasks[n_plain:]
+    # the shortest prefixes (inside and just after the version word) are always kept too
+    structured += [x for x in tasks if x[1] == "trunc" and x[2] <= 8]
+    tasks[:] = [x for x in tasks if not (x[1] == "trunc" and x[2] <= 8)]
     # the 4-byte version header
     for p in range(4):
         for v in vals + [1]:
